@@ -35,12 +35,15 @@ pub enum SetupPolicy {
     /// the first row is the run-index-th of the 216,481 possible first rows; the second row
     /// places rabbits first (index 0..8 of the script), the rest uniformly
     Scripted([Kind; 8]),
+    /// Silver repeats Gold's placements type for type (a mirrored army, the most common setup
+    /// habit); for Gold, who places first, the same as `Uniform`
+    Copy,
 }
 
 /// workload mix of a property's check (weights and menus the per-run swarm draws from)
 #[derive(Clone, Debug)]
 pub struct Mix {
-    pub families: [u32; 15],
+    pub families: [u32; 16],
     pub policies: [u32; 10],
     pub caps: &'static [usize],
     pub fan: &'static [f64],
@@ -81,7 +84,8 @@ impl Swarm {
         let p1 = if rng.chance(0.5) { p0 } else { POLICIES[rng.weighted(&mix.policies)] };
         let mut sp = [SetupPolicy::Uniform; 2];
         for s in sp.iter_mut() {
-            *s = match rng.below(5) {
+            *s = match rng.below(6) {
+                5 => SetupPolicy::Copy,
                 0 => SetupPolicy::RabbitsFirst,
                 1 => SetupPolicy::RabbitsLast,
                 2 => SetupPolicy::ExhaustOne(KINDS[rng.below(6)]),
@@ -91,7 +95,7 @@ impl Swarm {
         let (restart, fork) = if faults { (restart, fork) } else { (0.0, 0.0) };
         // the cage needs the two sides to shuffle and pass as early as possible
         // small clustered positions: expand whole turns exhaustively, starting at the first state
-        let dfs = if family == Family::TrapCluster || family == Family::Motif || family == Family::Confront { 0.02 } else { dfs };
+        let dfs = if family == Family::TrapCluster || family == Family::Motif || family == Family::Confront || family == Family::Elimination { 0.02 } else { dfs };
         let policy = if family == Family::Cage && rng.chance(0.8) { [Policy::PassEarly, Policy::PassEarly] } else { [p0, p1] };
         Swarm { family, cap, fan, fan2, rt, restart, fork, snap: if fork > 0.0 { (fork * 2.0).min(0.5) } else { 0.0 }, dfs, policy, setup_policy: sp }
     }
@@ -144,6 +148,14 @@ impl RandomSource {
                     }
                 }
                 SetupPolicy::ExhaustOne(k) => find(k).unwrap_or(uniform),
+                SetupPolicy::Copy => {
+                    let placed: usize = KINDS.iter().map(|k| count(&w.m.board, side, *k)).sum();
+                    let gold_sq = if placed < 8 { Sq::new(placed as u8, 2) } else { Sq::new((placed - 8) as u8, 1) };
+                    match (side, w.m.board[gold_sq.0 as usize]) {
+                        (Side::Silver, Some((Side::Gold, k))) if placed < 16 => find(k).unwrap_or(uniform),
+                        _ => uniform,
+                    }
+                }
                 SetupPolicy::Scripted(row) => {
                     let placed: usize = KINDS.iter().map(|k| count(&w.m.board, side, *k)).sum();
                     if placed < 8 {
@@ -353,7 +365,7 @@ impl Source for RandomSource {
         let fork_k = self.rng.next();
         let dfs = self.rng.chance(self.sw.dfs);
         // crafted small positions: always expand the whole first turn
-        let dfs = dfs || (self.steps == 1 && (self.sw.family == Family::TrapCluster || self.sw.family == Family::Motif || self.sw.family == Family::Confront));
+        let dfs = dfs || (self.steps == 1 && (self.sw.family == Family::TrapCluster || self.sw.family == Family::Motif || self.sw.family == Family::Confront || self.sw.family == Family::Elimination));
         // a turn that starts from a position which already stood twice: the repetition rules are
         // about to bite somewhere in this turn's tree, so expand it (drawn always, used sometimes)
         let cycle_coin = self.rng.chance(0.015);
